@@ -818,7 +818,12 @@ Rock::Rebuild::addSlotToEntry(const sfileno fileno, const SlotId slotId, const D
 
         // set total entry size and/or check it for consistency
         if (const uint64_t totalSize = header.entrySize) {
-            assert(totalSize != static_cast<uint64_t>(-1));
+            if (totalSize == static_cast<uint64_t>(-1)) {
+                // an impossible size (not the zero of "still unknown"): a
+                // damaged slot header must not stop the rebuild
+                freeBadEntry(fileno, "corrupted entry size");
+                return;
+            }
             if (!anchor.basics.swap_file_sz) {
                 anchor.basics.swap_file_sz = totalSize;
                 assert(anchor.basics.swap_file_sz != static_cast<uint64_t>(-1));
